@@ -11,12 +11,13 @@ of `Registry.lean` and restates the headline results without that hypothesis: wh
 `CollisionFree`, `NoZeroNode` (needed only because the operation language contains `rebase` and
 `intra`).
 -/
+set_option linter.unusedSectionVars false
+
 namespace Milhouse
 variable {T H : Type} [DecidableEq T] [DecidableEq H]
 variable {E : Elem T H} {A : HashAlg H} {mixIn : H → Nat → H} {cfg : Cfg}
 
 /-- every allocating operation keeps the registry / memo-store invariant (`Registry.lean`). -/
-omit [DecidableEq T] [DecidableEq H] in
 theorem regFacts_holds (E : Elem T H) (A : HashAlg H) (cfg : Cfg) : RegFacts E A cfg :=
   ⟨fun f h c r c' h' hok hc he => applyUpdates_reg E A E.pf cfg c c' f h h' r hok hc he,
    fun f h c n r c' h' hok hc he => popFront_reg E A E.pf cfg c c' n f h h' r hok hc he,
